@@ -128,16 +128,26 @@ class ChannelItem(EFLRItem, DimensionedItem):
 
         dim = list(sub_data.shape[1:]) or [1]
 
-        if self.dimension.value != dim:
-            if self.dimension.value:
+        # a dimension / element limit taken from the data of an earlier write is not the user's: it follows the data again
+        given_dim = self.dimension.value
+        if given_dim and given_dim == getattr(self, '_dimension_from_data', None):
+            given_dim = None
+        given_limit = self.element_limit.value
+        if given_limit and given_limit == getattr(self, '_element_limit_from_data', None):
+            given_limit = None
+        self._dimension_from_data = None if given_dim else dim
+        self._element_limit_from_data = None if given_limit else dim
+
+        if given_dim != dim:
+            if given_dim:
                 raise RuntimeError(f"Previously defined dimension of {self}: {self.dimension.value} "
                                    f"does not match the dimension from data: {dim}")
             logger.debug(f"Setting dimension of {self} to {dim}")
             self.dimension.value = dim
 
-        if self.element_limit.value != dim:
-            if self.element_limit.value:  # was specified and is not exactly equal to dim
-                if not self._compare_element_limit_vs_dimension(self.element_limit.value, dim):
+        if given_limit != dim:
+            if given_limit:  # was specified and is not exactly equal to dim
+                if not self._compare_element_limit_vs_dimension(given_limit, dim):
                     # the difference is and not acceptable according to RP66 rules
                     raise RuntimeError(f"Previously defined element limit of {self}: {self.element_limit.value} "
                                        f"does not match the dimension from data: {dim}")
